@@ -404,10 +404,88 @@ def gen_fine(run):
       yield list(s_)
 
 
+# -------------------------------------------------------------- containers
+# Every tool must treat every kind of input sequence alike: the other kinds feed lists (and decide
+# the values against the formulas); this one feeds the same samples as tuple / Stream / one-shot
+# iterator / generator / re-iterable object and demands the list's answer.
+class ReIter(object):
+  def __init__(self, data):
+    self.data = list(data)
+  def __iter__(self):
+    return iter(list(self.data))
+
+
+CONTAINERS = OrderedDict([
+  ("tuple", tuple), ("stream", lambda v: Stream(list(v))), ("iter", lambda v: iter(list(v))),
+  ("generator", lambda v: (e for e in list(v))), ("reiter", ReIter),
+  ("stream-of-iter", lambda v: Stream(iter(list(v)))),
+])
+BASE = ["1", "-2", "1/2", "3", "-1", "0", "3", "-2", "1"]
+
+
+def tool_menu():
+  m = OrderedDict()
+  for strat in ("deque", "recursive", "feedback", "fir"):
+    for size in (1, 2, 4):
+      m["maverage.%s(%d)" % (strat, size)] = (lambda x, strat=strat, size=size: maverage[strat](size)(x, zero=Q(0)))
+  for strat in ("accumulate", "itertools", "func", "pure_python", "z"):
+    m["accumulate.%s" % strat] = (lambda x, strat=strat: accumulate[strat](x))
+  for lag in (1, 2, 3, 5):
+    for size in (1, 2):
+      m["amdf(%d,%d)" % (lag, size)] = (lambda x, lag=lag, size=size: amdf(lag, size)(x, zero=Q(0)))
+  for strat in ("abs", "squared", "rms"):
+    m["envelope.%s" % strat] = (lambda x, strat=strat: envelope[strat](x, cutoff=.5))
+  for lo, hi in ((None, "1"), ("-1", None), ("-1", "1")):
+    m["clip(%s,%s)" % (lo, hi)] = (lambda x, lo=lo, hi=hi: clip(x, None if lo is None else Q(lo), None if hi is None else Q(hi)))
+  for h in ("0", "1/2"):
+    for fs in ("0", "1"):
+      m["zcross(%s,%s)" % (h, fs)] = (lambda x, h=h, fs=fs: zcross(x, hysteresis=Q(h), first_sign=Q(fs)))
+  for md, st in (("1", "2"), ("1/2", "1"), ("2", "1")):
+    m["unwrap(%s,%s)" % (md, st)] = (lambda x, md=md, st=st: unwrap(x, max_delta=Q(md), step=Q(st)))
+  return m
+
+
+TOOLS = tool_menu()
+
+
+def gen_containers(run):
+  for name in TOOLS:
+    for n in (0, 1, 2, 3, 5, 9):
+      yield (name, n)
+
+
+def run_containers(case):
+  name, n = case
+  tool = TOOLS[name]
+  x = [Q(v) for v in BASE[:n]]
+  def val(v):
+    return v if isinstance(v, float) else fq(v)
+  try:
+    want = [val(v) for v in tool(list(x))]
+  except Exception as exc:
+    return bad("containers:exception:" + type(exc).__name__, "%s raised on a list" % name, None, str(exc)[:200])
+  if len(want) != n:
+    return bad("containers:length", "%s must give one output per input sample" % name, n, len(want))
+  for ck, mk in CONTAINERS.items():
+    try:
+      out = tool(mk(x))
+      got = [val(v) for v in out]
+    except Exception as exc:
+      return bad("containers:exception:" + type(exc).__name__, "%s raised on a %s input" % (name, ck), None, str(exc)[:200])
+    if not isinstance(out, Stream):
+      return bad("containers:type", "%s must return a Stream" % name, "Stream", type(out).__name__)
+    if got != want:
+      return bad("containers:value", "%s of a %s differs from the same samples given as a list" % (name, ck),
+                 want, got, n > 1)
+  return R(None, n > 1, (name.split("(")[0].split(".")[0], n > 3))
+
+
 KINDS = OrderedDict([
   ("maverage", Kind(gen_maverage, run_maverage, chunk=10, rule="strategy x size x zero kind x length on symbolic input")),
   ("reuse", Kind(gen_interleave, run_interleave, chunk=2, rule="one filter object, two signals, interleaved consumption")),
   ("accumulate", Kind(gen_accumulate, run_accumulate, chunk=6, rule="strategy x length x source kind on symbolic input")),
+  ("containers", Kind(gen_containers, run_containers, chunk=8,
+                      rule="every tool configuration x input container kind (tuple, Stream, iterator, generator, re-iterable); differential against the list input")),
   ("amdf", Kind(gen_amdf, run_amdf, chunk=20, rule="all sequences x lags x sizes x zero")),
   ("envelope", Kind(gen_envelope, run_envelope, chunk=20, rule="all sequences x strategies x cut-offs")),
   ("clip", Kind(gen_pointwise, run_clip, chunk=200, rule="all sequences x all limit pairs")),
